@@ -42,11 +42,11 @@ def make_inputs(d, R, long_at=0, bgzf_aligned=False, poison_at=0):
     from readers import write_text
 
     gtxt = (f"S\ts1\t{NODE1}\tLN:i:{len(NODE1)}\tSN:Z:chr1\tSO:i:0\tSR:i:0\n"
-            f"S\ts2\t{NODE2}\tLN:i:{len(NODE2)}\tSN:Z:chr1\tSO:i:{len(NODE1)}\tSR:i:0\n" + "L\ts1\t+\ts2\t+\t0M\n"
+            f"S\ts2.1\t{NODE2}\tLN:i:{len(NODE2)}\tSN:Z:chr1\tSO:i:{len(NODE1)}\tSR:i:0\n" + "L\ts1\t+\ts2.1\t+\t0M\n"
             # (s2 can also be entered inverted, as after an inversion call: two links between the same two segments)
-            + "L\ts1\t+\ts2\t-\t0M\n")
+            + "L\ts1\t+\ts2.1\t-\t0M\n")
     if long_at:
-        gtxt += f"S\ts3\t{big}\tLN:i:{len(big)}\tSN:Z:chr1\tSO:i:{len(NODE1) + len(NODE2)}\tSR:i:0\n" + "L\ts2\t+\ts3\t+\t0M\n"
+        gtxt += f"S\ts3\t{big}\tLN:i:{len(big)}\tSN:Z:chr1\tSO:i:{len(NODE1) + len(NODE2)}\tSR:i:0\n" + "L\ts2.1\t+\ts3\t+\t0M\n"
     write_text(gfa, gtxt)
     path = NODE1 + NODE2
     fa = os.path.join(d, "reads.fa")
@@ -62,7 +62,7 @@ def make_inputs(d, R, long_at=0, bgzf_aligned=False, poison_at=0):
                 # a record whose path is not a walk of this graph (made against another version of it): there is nothing to
                 # align against, the worker that gets it fails
                 f.write(f">{RN(i)}\nACGTACGTAC\n")
-                g.write(f"{RN(i)}\t10\t0\t10\t+\t>s2>s1\t{len(path)}\t0\t10\t10\t10\t60\ttp:A:P\tcg:Z:10=\n")
+                g.write(f"{RN(i)}\t10\t0\t10\t+\t>s2.1>s1\t{len(path)}\t0\t10\t10\t10\t60\ttp:A:P\tcg:Z:10=\n")
                 continue
             ps, pe = (i + 1) % 3, len(path) - (i % 3)      # i = 2: starts at the first base of the path; i = 3: ends at its last base
             seq = list(path[ps:pe])
@@ -72,7 +72,7 @@ def make_inputs(d, R, long_at=0, bgzf_aligned=False, poison_at=0):
             f.write(f">{RN(i)}\n{seq}\n")
             L = len(seq)
             g.write(
-                f"{RN(i)}\t{L}\t0\t{L}\t+\t>s1>s2\t{len(path)}\t{ps}\t{pe}\t{L-1}\t{L}\t60\ttp:A:P\tcg:Z:{L}=\t{ZTAG[i % len(ZTAG)]}\n"
+                f"{RN(i)}\t{L}\t0\t{L}\t+\t>s1>s2.1\t{len(path)}\t{ps}\t{pe}\t{L-1}\t{L}\t60\ttp:A:P\tcg:Z:{L}=\t{ZTAG[i % len(ZTAG)]}\n"
             )
     if bgzf_aligned:
         # the same records as a multi-block BGZF file > 1 MiB in which records start exactly at 64 KiB ... 1 MiB
